@@ -23,7 +23,11 @@ Definition F := 400%nat.
 Definition runner (c : Z * list (Z * Z * Z) * cexpr) : list Z :=
   let '(kind, s, t) := c in
   if kind =? 0 then enco (build_cas s)
-  else if kind =? 1 then enco (o_bind (build_cas s) (automatic_simplify true F F))
+  else if kind =? 1 then
+    (* the integer-exponent guard is switched on exactly for stacks without power operators: there the guarded model must still
+       follow the code (the guard never fires), which is what ties the pointwise theorem over the reals to such equations *)
+    let iexp := negb (existsb (fun c => (node_of c =? POWER) || (node_of c =? SAFE_POWER)) s) in
+    enco (o_bind (build_cas s) (automatic_simplify true iexp fits64 F F))
   else if kind =? 2 then enco (optional_modifications F t)
   else match build_agraph_stack t with Some rows => flat_map (fun r => [node_of r; p1_of r; p2_of r]) rows | None => [(-3)] end."""
 RUNNER = "runner"
@@ -67,9 +71,14 @@ def gen_case(rng):
     elif k < 0.8:     # constant free, all operators
         s = c01.gen_stack(rng, rng.randint(2, 12), D, 0, ALL_OPS, int_values=(0, 1, 2, 3, -1, -2))
         kind = "all"
-    else:             # everything
+    elif k < 0.9:     # everything
         s = c01.gen_stack(rng, rng.randint(2, 12), D, 3, ALL_OPS, int_values=(0, 1, 2, 3, -1, -2))
         kind = "allc"
+    else:             # integer arithmetic near and beyond the int64 range of the command array (exact rational oracle)
+        s = c01.gen_stack(rng, rng.randint(2, 9), D, 0, [2, 3, 4, 4, 5, 10, 10],
+                          int_values=(0, 1, 2, 3, -1, -2, 7, 10, 19, 30, 40, 63, 64, 100, 101, 2 ** 31, 3037000500, -3037000500, 2 ** 62,
+                                      2 ** 63 - 1, -2 ** 63))
+        kind = "bigint"
     return dict(stack=s, D=D, kind=kind)
 
 
@@ -107,6 +116,41 @@ def impl_main(payload):
         n = len(t[1])
         ok = (n == 1 and t[0] not in ARITY2) or (n == 2 and t[0] in ARITY2) or (n >= 3 and t[0] in (2, 4))
         return ok and all(arity_ok(c) for c in t[1])
+
+    def exact_value(stack, xrow):
+        """exact rational value of a constant-free stack over + - * / and integer powers; None where undefined or out of reach"""
+        from fractions import Fraction
+        vals = []
+        for (n, p1, p2) in stack:
+            if n == -1:
+                v = Fraction(int(p1))
+            elif n == 0:
+                v = Fraction(xrow[p1])
+            else:
+                a, b = vals[p1], vals[p2]
+                if a == "skip" or b == "skip":
+                    v = "skip"
+                elif a is None or b is None:
+                    v = None
+                elif n == 2:
+                    v = a + b
+                elif n == 3:
+                    v = a - b
+                elif n == 4:
+                    v = a * b
+                elif n == 5:
+                    v = None if b == 0 else a / b
+                elif n == 10:
+                    if a == 0 and b < 0:
+                        v = None
+                    elif b.denominator != 1 or abs(b) > 80 or abs(a.numerator) > 10 ** 40 or a.denominator > 10 ** 40:
+                        v = "skip"       # not a rational number, or out of reach of exact arithmetic
+                    else:
+                        v = a ** int(b)
+                else:
+                    v = "skip"
+            vals.append(v)
+        return vals[-1]
 
     def admissible_values(stack, x, cs):
         """row values by an independent evaluator; a point is admissible when every utilized intermediate is finite and moderate"""
@@ -208,7 +252,21 @@ def impl_main(payload):
         red_l = [list(map(int, r)) for r in g0._simplified_command_array.tolist()]
         ref, ok = admissible_values(red_l, x, c0)
         has_pow = any(r[0] in (10, 13) for r in red_l)
-        if L0 == 0:
+        if c["kind"] == "bigint":
+            stats["exact_rational"] = stats.get("exact_rational", 0) + 1
+            for xrow in ([2, 3, -1], [-3, 1, 5], [1, 1, 1]):
+                a = exact_value([list(map(int, r)) for r in st.tolist()], xrow)
+                if a is None or a == "skip":
+                    continue
+                b = exact_value(outl, xrow)
+                if b == "skip":
+                    continue
+                stats["exact_rational_points"] = stats.get("exact_rational_points", 0) + 1
+                if b is None or a != b:
+                    viol.append("integer stack %r is exactly %s at x=%r, its simplification %r is %s"
+                                % (c["stack"], a, xrow[:D], outl, "undefined" if b is None else b))
+                    break
+        elif L0 == 0:
             y1 = np.asarray(g1.evaluate_equation_at(x), dtype=float).ravel()
             sel = ok & (np.isfinite(y1) if has_pow else np.ones(len(ok), dtype=bool))
             stats["pointwise"] += 1
